@@ -281,12 +281,21 @@ func (g *gen) body(t *Ty, d int) []Stmt {
 	return st
 }
 
+// the name "." as the argument of a transform is the parser's spelling of "no argument": keep the value, not the spelling
+func notDot(arg *Expr) *Expr {
+	if arg.K == "name" && arg.Name == "." {
+		return eIf(eLit(vBool(true)), arg, arg)
+	}
+	return arg
+}
+
 // transform evaluated once: arg of a non-collection type at, producing a record
 func (g *gen) recTransform(t *Ty, d int, arg *Expr, at *Ty) *Expr {
 	sv := g.scopeVar()
 	if at.K == "rec" {
 		sv = "." // a map argument with a named scope variable iterates over the entries instead
 	}
+	arg = notDot(arg)
 	pop := g.push(sv, at)
 	st := g.body(t, d)
 	pop()
@@ -529,7 +538,7 @@ func (g *gen) collTransform(t *Ty, d int) *Expr {
 	} else {
 		st = tSet(et)
 	}
-	src := g.expr(st, d)
+	src := notDot(g.expr(st, d))
 	sv := g.scopeVar()
 	pop := g.push(sv, et)
 	body := g.body(t.E, d)
@@ -545,7 +554,7 @@ func (g *gen) collTransform(t *Ty, d int) *Expr {
 // transform over the entries of a map with a named scope variable: t = list(rec)
 func (g *gen) mapTransform(t *Ty, d int) *Expr {
 	rt := g.randRec(0)
-	src := g.expr(rt, d)
+	src := notDot(g.expr(rt, d))
 	sv := g.freshName("e")
 	pt := &Ty{K: "rec", F: []Field{{"key", tStr}}}
 	homog := true
